@@ -39,8 +39,8 @@ What is a theorem here (all inputs, no size bound), about `Model.C06` (tied to s
 The two `…_partial` theorems carry explicit hypotheses (see the section at the end): the frames encode a log whose offsets
 increase (`WfLog`), and the aborted list is one a broker can send for that log and fetch offset (`AbortedConsistent`).
 Outside them the property text does not say what the result must be (a list naming a transaction twice, a transaction whose
-ABORT marker lies below the fetch offset); the model and the code are compared there by the differential run only. One
-departure of the code from the Kafka log format is excluded by `RepWrapper.plain` and reported, see the end of the file. -/
+ABORT marker lies below the fetch offset); the model and the code are compared there by the differential run only.
+v1 wrappers stamped LogAppendTime are covered (the departure found here was repaired in /repo 581b089; the model follows). -/
 namespace Props.C06
 open Model.C06 Proof.C06
 
@@ -347,12 +347,20 @@ example : ∀ recs next err, process exOpts false exAborted (exItems ++ [.stop n
     Spec.C06.holds (reqOf exOpts exAborted) exLog exRest (recs.map obs) next = true :=
   spec_holds_partial exOpts exAborted exItems [.stop none] exLog exRest ex_rep ex_wf ex_cons ex_complete (Or.inr ⟨none, [], rfl⟩)
 
-/-! ## A departure of the code from the Kafka log format (excluded above by `RepWrapper.plain`, reported)
+/-! A second log (repaired in /repo 581b089, see known_findings): a v1 gzip wrapper stamped LogAppendTime at 39..41 (inner relative
+offsets 0 and 2, producer timestamps 77 and 78, broker time 5000) and a v0 message at 42; fetch at 40, inside the wrapper. The
+reference — and hence the model — returns 41 with timestamp 5000 and attributes gzip|LogAppendTime, and 42 without timestamp. -/
 
-A v1 compressed wrapper whose attributes carry the LogAppendTime bit (8): the log format gives every inner message the
-wrapper's timestamp and timestamp type (Kafka `AbstractLegacyRecordBatch`: "if the wrapper is LOG_APPEND_TIME the inner
-timestamps are ignored"). `processV1OuterMessage` never reads the wrapper's timestamp or that bit: it returns the inner
-timestamps with CreateTime attributes. The Spec's `LBatch` holds the timestamp the log format denotes, so such a frame has no
-`Rep` and the theorems do not speak about it; the implementation's output on such an input is in the final report. -/
+open Proof.C06 in
+example : ∀ recs next err, process exOpts2 false [] exItems2 = .done recs next err →
+    recs.map obs = [⟨41, some 5000, exKey, exVal 2, [], 9, -1, -1, -1⟩, ⟨42, none, exKey, exVal 3, [], 128, -1, -1, -1⟩] := by
+  intro recs next err h
+  have := records_eq_reference_partial exOpts2 [] exItems2 [] exLog2 ex2_rep ex2_wf ex2_cons (by decide) (Or.inl rfl) recs next err
+    (by simpa using h)
+  rw [this]; decide
+
+open Proof.C06 in
+example : process exOpts2 false [] exItems2 = .done
+    [⟨41, some 5000, exKey, exVal 2, [], 9, -1, -1, -1⟩, ⟨42, none, exKey, exVal 3, [], 128, -1, -1, -1⟩] 43 none := by decide
 
 end Props.C06
